@@ -20,6 +20,9 @@ META = {
             "0..4 / 0..6 sources over 6 outcomes incl. BadAuthenticationType and OSError (1 555 / 55 987 lists), produced lazily by "
             "a generator; plus all lists of 0..5 / 0..6 sources over the 4 outcomes whose members all print identically "
             "(equal repr) or additionally compare/hash equal while being distinct objects with their own outcomes; "
+            "plus all lists of 1..2 / 1..3 sources over an exception zoo of 19 classes (EOFError, ConnectionResetError, "
+            "socket.timeout, KeyError, StopIteration, UnicodeDecodeError, paramiko's own, an application class ...) x 3 "
+            "argument shapes (no arguments / one string / int+string); "
             "the real AuthStrategy.authenticate runs each list. Oracle: source.authenticate is "
             "called once per source in production order with the given transport, never after the first "
             "success; on success the return value lists exactly the attempted sources paired with the "
@@ -34,7 +37,48 @@ OUTCOMES6 = OUTCOMES4 + ["BadAuthenticationType", "OSError", "PartialAuthenticat
 logging.getLogger("paramiko").setLevel(logging.CRITICAL)
 
 
+# exception zoo: "various exceptions" = class x argument shape.  One defect class is code that inspects the
+# caught error (args[0], str(e), errno, isinstance tests for "connection is dead" classes) while reporting it.
+ZOO_CLASSES = ["EOFError", "ConnectionResetError", "BrokenPipeError", "TimeoutError", "socket.timeout",
+               "KeyError", "IndexError", "AttributeError", "RuntimeError", "NotImplementedError", "AssertionError",
+               "StopIteration", "UnicodeDecodeError", "SSHException", "AuthenticationException",
+               "PasswordRequiredException", "ChannelException", "NoValidConnectionsError", "CustomBare"]
+ZOO_SHAPES = ["noargs", "str", "int-str"]
+
+
+class CustomBare(Exception):
+    """an application-defined error class with its own __str__"""
+
+    def __str__(self):
+        return "custom"
+
+
+def zoo_outcomes(tier):
+    return ["ok"] + ["zoo:%s:%s" % (c, sh) for c in ZOO_CLASSES for sh in ZOO_SHAPES]
+
+
+def make_zoo(cls, shape, i):
+    import socket
+    import paramiko.ssh_exception as X
+    if cls == "UnicodeDecodeError":
+        return UnicodeDecodeError("utf-8", b"\xff", 0, 1, "source %d" % i)
+    if cls == "ChannelException":
+        return X.ChannelException(2, "source %d" % i)
+    if cls == "NoValidConnectionsError":
+        return X.NoValidConnectionsError({("h", 22): OSError("source %d" % i)})
+    klass = {"socket.timeout": socket.timeout, "CustomBare": CustomBare}.get(cls) or getattr(X, cls, None) \
+        or getattr(__import__("builtins"), cls)
+    if shape == "noargs":
+        return klass()
+    if shape == "str":
+        return klass("source %d" % i)
+    return klass(100 + i, "source %d" % i)
+
+
 def make_exc(name, i):
+    if name.startswith("zoo:"):
+        _, cls, shape = name.split(":")
+        return make_zoo(cls, shape, i)
     if name == "AuthenticationException":
         return AuthenticationException("source %d refused" % i)
     if name == "SSHException":
@@ -240,6 +284,19 @@ def work(item, acc):
                     acc.violation(res[0], {"outcomes": list(outcomes), **res[1]},
                                   {"outcomes": list(outcomes), "look": look})
         return
+    if item[0] == "zoo":
+        _, alpha, first, n = item
+        for k in range(0, n):
+            for rest in itertools.product(alpha, repeat=k):
+                outcomes = (first,) + rest
+                acc.ev()
+                if len(outcomes) >= 2:
+                    acc.nt(("zoo",) + outcomes)
+                res = run_list(outcomes)
+                if res is not None:
+                    acc.violation(res[0] + ":" + zoo_tag(outcomes, res[0]), {"outcomes": list(outcomes), **res[1]},
+                                  {"outcomes": list(outcomes)})
+        return
     if item[0] == "reuse":
         _, alpha, n = item
         lists = [t for k in range(0, n + 1) for t in itertools.product(alpha, repeat=k)]
@@ -271,8 +328,19 @@ def work(item, acc):
                         "returned": "AuthResult listing sources 0..2 with ValueError, SSHException, []"})
 
 
+def zoo_tag(outcomes, key):
+    """Finding-key suffix for a zoo list: the first failing source's class and argument shape (the list is
+    enumerated simplest-first, so this names the trigger)."""
+    for o in outcomes:
+        if o.startswith("zoo:"):
+            return "source-raised-%s(%s)" % tuple(o.split(":")[1:])
+    return "all-ok"
+
+
 def plan(tier):
     items = []
+    zoo = zoo_outcomes(tier)
+    items += [("zoo", zoo, f, 2 if tier == "quick" else 3) for f in zoo]
     nmax = 7 if tier == "quick" else 9
     for n in range(0, nmax + 1):
         k = max(0, n - 6)       # <= 4^6 lists per work item
@@ -304,7 +372,9 @@ def main(tier):
     ck.merge(core.pmap(items, work))
     ck.extra["bound"] = {"max_sources": nmax, "outcomes": OUTCOMES4,
                          "extra_outcomes": OUTCOMES6[4:], "source_looks": LOOKS,
-                         "max_sources_with_lookalike_sources": 5 if tier == "quick" else 6, "max_sources_with_extra_outcomes": 4 if tier == "quick" else 6}
+                         "max_sources_with_lookalike_sources": 5 if tier == "quick" else 6, "max_sources_with_extra_outcomes": 4 if tier == "quick" else 6,
+                         "exception_zoo": {"classes": ZOO_CLASSES, "argument_shapes": ZOO_SHAPES,
+                                           "max_sources": 2 if tier == "quick" else 3}}
     return ck.finish()
 
 
